@@ -1,5 +1,5 @@
 """Claim prose per property for the evidence files (counts are measured by the runs)."""
-from pyvc.claims import claim, A2, A4
+from pyvc.claims import claim, A2, A4, A8
 
 claim('C01',
       assumptions=[
@@ -240,3 +240,23 @@ claim('C20',
                   'Asset.initialize raises on a second call; find_assets returns exactly the matching registered assets in '
                   'registration order (ghost position maps); late creation of PartHandler, PartProcessor, Buffer, Sink, PartBatcher, '
                   'DecisionGate, Maintainer, ActionScheduler verified (three defects repaired); Source: known finding.')
+
+claim('C17',
+      assumptions=[
+          A2, A8,
+          'per activation the contracts give the element-wise statement (input afterwards = unmoved suffix IN[g_k:], receiving '
+          'batch = what was collected ++ IN[:g_k], output filled iff the count reaches n); the concatenation identity over a whole '
+          'run is an induction over activations done by hand (DESIGN.md): it uses give_part accepting only when _part and _output '
+          'are empty and _pass_part_downstream emptying _output iff a downstream took it, both proved',
+          'Part.add_routing_history / remove_from_routing_history / initialize on the contained parts are recorded as trace calls '
+          'that do not raise',
+          'the field `parts` is declared on Part as well (no isinstance narrowing in the engine); every `.parts` read in the '
+          'repository is isinstance-guarded (scan)',
+          'Batch.value == sum of the contained values is not machine-checked (sum over a comprehension)',
+      ],
+      explanation='PartBatcher._get_part_from_input takes the first leaf and keeps the order of the rest; _add_part_to_output appends '
+                  'behind what was collected, starts a new Batch when none is under construction and closes it exactly at n; '
+                  '_try_move_part_to_output (loop invariant with ghost counter g_k) moves a prefix of the input, leaves the suffix, '
+                  'fills the output iff n is reached and schedules exactly one hand-over then; _pass_part_downstream refills only '
+                  'from the held input; give_part accepts only when nothing is left to unpack and nothing waits to leave; Buffer '
+                  'and Sink count every contained part; Batch routing-history updates reach every part once, in order.')
